@@ -4,3 +4,6 @@ package server
 
 // VerifC11SendBurst: no batched sender on this platform.
 func VerifC11SendBurst(ids []uint16, ports []int) (available bool) { return false }
+
+// VerifC11FlushStaged: no batched sender on this platform.
+func VerifC11FlushStaged(ids []uint16, ports []int) (stillStaged int, available bool) { return 0, false }
